@@ -552,7 +552,8 @@ impl ChannelBase for Channel {
         // Also, given that we previous validated the commitment tx when we
         // got the counterparty signature for it, then we must have fulfilled
         // policy-revoke-new-commitment-valid
-        if commitment_number + 2 > next_holder_commit_num {
+        // checked: in a release build `commitment_number + 2` would wrap for u64::MAX-1 / u64::MAX
+        if commitment_number.checked_add(2).map_or(true, |n| n > next_holder_commit_num) {
             let validator = self.validator();
             policy_err!(
                 validator,
@@ -573,7 +574,7 @@ impl ChannelBase for Channel {
     // policy error if the request is out of range
     fn get_per_commitment_secret_or_none(&self, commitment_number: u64) -> Option<SecretKey> {
         let next_holder_commit_num = self.enforcement_state.next_holder_commit_num;
-        if commitment_number + 2 > next_holder_commit_num {
+        if commitment_number.checked_add(2).map_or(true, |n| n > next_holder_commit_num) {
             warn!(
                 "get_per_commitment_secret_or_none: called past current revoked holder commitment \
                  implied by next_holder_commit_num: {} + 2 > {}",
@@ -1106,7 +1107,8 @@ impl Channel {
         &mut self,
         commitment_number: u64,
     ) -> Result<(PublicKey, Option<SecretKey>), Status> {
-        let next_holder_commitment_point = self.get_per_commitment_point(commitment_number + 1)?;
+        let next_holder_commitment_point =
+            self.get_per_commitment_point(commitment_number.saturating_add(1))?;
         let maybe_old_secret = if commitment_number >= 1 {
             // this will fail if the secret is not ready to be released
             Some(self.get_per_commitment_secret(commitment_number - 1)?)
